@@ -111,6 +111,59 @@ static bool body_backsolved(const Case &c, Ctx &ctx)
     if (c.v[24] & 0x200) memcpy(B, in, sizeof B); else for (int i = 0; i < 12; i++) B[i] = c.v[12 + i];
     return check_perm(in, B, ctx);
 }
+// payload: X[12] (target state entering partial round r), B[12], flags (bits 0..4: r in 0..22)
+static bool body_partial(const Case &c, Ctx &ctx)
+{
+    int r = (int)(c.v[24] & 31) % 23;
+    uint64_t in[12], chk[12];
+    refp::backsolve_partial(in, &c.v[0], r);
+    refp::forward_to_partial(chk, in, r);
+    for (int i = 0; i < 12; i++) if (chk[i] != c.v[i] % PR) return ctx.fail("internal: back-solving through the partial rounds does not reproduce the target state");
+    ctx.nt(r == 22 ? "backsolved:state-leaving-the-partial-rounds" : r == 0 ? "backsolved:partial-round-0" : r < 11 ? "backsolved:partial-round-1..10" : "backsolved:partial-round-11..21");
+    { static const char *MN[] = {"partial:residue-targeted-lane-product", "partial:integer-low-word-targeted-lane-product", "partial:lane0-dot-product-targeted", "partial:boundary-state"}; ctx.cls(MN[(c.v[24] >> 8) & 3]); }
+    if (c.v[24] & 0x1000) for (int i = 0; i < 12; i++) if (in[i] < 0xFFFFFFFFull) in[i] += PR;
+    uint64_t B[12];
+    if (c.v[24] & 0x2000) memcpy(B, in, sizeof B); else for (int i = 0; i < 12; i++) B[i] = c.v[12 + i];
+    return check_perm(in, B, ctx);
+}
+// generator for body_partial: the sbox output t0 of lane 0 in round r and one other lane i are solved against the round's sparse-matrix coefficient
+// W = S[23r+11+i] so that the lane update x_i + t0*W sits on a boundary of the implementation's intermediate arithmetic
+static uint64_t inv64(uint64_t b) { uint64_t x = b; for (int k = 0; k < 6; k++) x *= 2 - b * x; return x; } // inverse of an odd b modulo 2^64
+static rc::Gen<std::vector<uint64_t>> gen_partial()
+{
+    return rc::gen::apply([](std::vector<uint64_t> v, uint64_t f, uint64_t u1, uint64_t u2, g::P2 pa) {
+        namespace K = PoseidonGoldilocksConstants;
+        int r = (int)(f & 31) % 23, mode = (int)((f >> 8) & 3), lane = 1 + (int)((f >> 16) % 11);
+        if (r < 22 && mode < 3) {
+            const uint64_t W = K::S[23 * r + (mode == 2 ? lane : 11 + lane)].fe % PR, C = K::C[5 * 12 + r].fe;
+            uint64_t t0 = v[0] % PR;
+            static const uint64_t RB[] = {0, 1, 2, 0xFFFFFFFEull, 0xFFFFFFFFull, 0x100000000ull, 0x100000001ull, PR - 1, PR - 2, PR - 0xFFFFFFFFull, 0x7FFFFFFFFFFFFFFFull, 0x8000000000000000ull, 0xFFFFFFFF00000000ull - 1, 0xFFFFFFFE00000001ull};
+            if (mode == 0 || mode == 2) { // residue of the product t0*W on a boundary (raw vector products of such residues tend to be >= p)
+                uint64_t rho = (u1 & 1) ? (u1 >> 32) : ref::add(RB[(u1 >> 1) % 14], (u1 >> 8) % 5);
+                if (W) t0 = ref::mul(rho % PR, ref::inv(W));
+                // partner lane: complements of the product (as residue rho, or as raw value rho + p) to 2^64, to p, to 2^32 boundaries, carries between the 32-bit words
+                uint64_t vraw = (u2 & 1) && rho < 0xFFFFFFFFull ? rho + PR : rho, x;
+                switch ((u2 >> 1) % 6) {
+                case 0: x = (uint64_t)0 - vraw - (u2 >> 8) % 3; break;                            // sum reaches 2^64
+                case 1: x = PR - (rho % PR) - (u2 >> 8) % 3; break;                                // sum reaches p
+                case 2: x = ((u2 >> 32) << 32) | ((0x100000000ull - (vraw & 0xFFFFFFFFull) + (u2 >> 8) % 3 - 1) & 0xFFFFFFFFull); break; // low words carry
+                case 3: x = 0xFFFFFFFFFFFFFFFFull - vraw + (u2 >> 8) % 3; break;
+                case 4: x = pa.second; break;
+                default: x = (0xFFFFFFFF00000000ull - vraw) + (u2 >> 8) % 5; break;
+                }
+                if (mode == 0) v[lane] = x % PR; else v[lane] = ref::mul(rho % PR, W ? ref::inv(W) : 1), t0 = v[0] % PR;
+            } else { // the low 64 bits of the INTEGER product t0*W are tiny / just below 2^64 (fused multiply-add and 128-bit reductions borrow here)
+                uint64_t Wo = W; int sh = 0; while (Wo && !(Wo & 1)) { Wo >>= 1; sh++; }
+                uint64_t eps = (u1 & 1) ? (u1 >> 33) : (u1 & 2) ? (uint64_t)0 - 1 - (u1 >> 40) : (u1 >> 8) % 64;
+                for (int tries = 0; tries < 8; tries++) { uint64_t cand = eps * inv64(Wo ? Wo : 1); if (sh) cand &= (~(uint64_t)0) >> sh; /* t0*W = eps*2^sh (mod 2^64) */ if (cand < PR && cand) { t0 = cand; break; } eps += 2; }
+                static const uint64_t XS[] = {0, 1, 2, 1000, 0xFFFFFFFFull, 0x100000000ull}; v[lane] = (u2 & 1) ? XS[(u2 >> 1) % 6] : (u2 & 2) ? (u2 >> 32) : ((uint64_t)0 - ((unsigned __int128)t0 * W) - (u2 >> 8) % 3) % PR;
+            }
+            if (mode != 2) v[0] = refp::root7(ref::sub(t0, C)); // lane 0 enters the round as the 7th root of (t0 - C)
+        }
+        v.push_back(f);
+        return v;
+    }, g::fe_vec(24), g::uni64(), g::uni64(), g::uni64(), g::pair_add());
+}
 static std::string desc_perm(const Case &c)
 {
     std::string s = c.prop + " A=";
@@ -365,6 +418,7 @@ int main(int argc, char **argv)
                                  unsigned __int128 target = ((unsigned __int128)mult << 64) - 1 - (small[t].first % 64); v[t] = (uint64_t)(target / m) % PR; } }
                          else if ((flags >> 12) & 1) { namespace K = PoseidonGoldilocksConstants; int k = (flags >> 16) % 12; for (int t = 0; t < 12; t++) if ((flags >> (20 + t)) & 1) { uint64_t coef = ((flags % 4) == 3) ? K::P[t][k].fe : K::M[t][k].fe; v[t] = ref::mul(small[t].first & 0xFFFFFFFFull, ref::inv(coef % PR ? coef : 1)); } }
                          v.push_back(flags); return v; }, g::fe_vec(24), rc::gen::container<std::vector<g::P2>>(12, g::pair_hilo()), g::uni64()); }, body_backsolved, 2, false, desc_perm, 100});
+    props.push_back({"c06.partial", [] { return gen_partial(); }, body_partial, 2, false, desc_perm, 100});
     { pbt::PropDef p{"c06.kat", [] { return rc::gen::just(std::vector<uint64_t>{0}); }, body_kat, 0, false, nullptr, 100};
       p.enum_count = [] { return (uint64_t)2; }; p.enum_at = [](uint64_t i) { return std::vector<uint64_t>{i}; }; props.push_back(p); }
     // C07: every length 0..200 exhaustively (several contents each), random lengths up to 5000
